@@ -74,3 +74,14 @@ level("C09",
       "dominance with handler edges, call resolution.",
       "CFG dominance with exceptional edges, interface-completeness (sibling agreement), interprocedural event order",
       "DESIGN.md §4 C09")
+
+level("C13",
+      "Static decision for all option values and inputs of: the CLI compiles ^ + group(user pattern, unmodified) + $ in "
+      "every variant its code can produce (regex parse tree with the user part as an opaque hole), without flags; the "
+      "per-field flag reaches only the direct value; regexes are compiled one by one and the flag is cleared only under "
+      "all(pattern.match over every key); flag->model / not flag->mapping; empty->mapping; samples->models.",
+      "Decided: RX-1, DK-1, DK-2, DK-3. NOT decided: that the mapping's value type admits every value (C01); `$` "
+      "matching before a trailing newline. Trusted: re._parser parse trees; symbolic string evaluation of the pattern "
+      "expression (helpers inlined to depth 3).",
+      "symbolic string provenance + regex AST with an opaque hole; call-site classification; guard shape of the decision",
+      "DESIGN.md §4 C13")
